@@ -1519,15 +1519,26 @@ func (w *world) judgeA(sig *strings.Builder, postDirect string) {
 			o.Violate("C12/force-direct-connect-without-direct-conn", "Host.Connect with force-direct succeeded during [%d,%d] although no direct connection to the peer was open in that interval", r.inv, r.ret)
 		}
 		// ... and what it returns / reports must be a connection that really existed: not one the node's own gater refused
+		// (phantom), and not one whose Disconnected notification was delivered before the call even began (stale).
 		if sp.force && r.err == nil && (sp.api == apiSwarmDialPeer || sp.api == apiHostConnect) {
-			real := false
+			var candidates []*connInfo // the returned connection (DialPeer) / every direct connection that overlaps the call (Connect)
 			for _, id := range v.order {
-				if ci := v.conns[id]; !ci.relayed && !ci.limited && ci.overlaps(r.inv, r.ret) && !w.phantom(v, ci) && (sp.api == apiHostConnect || id == r.connID) {
-					real = true
+				if ci := v.conns[id]; !ci.relayed && !ci.limited && ((sp.api == apiSwarmDialPeer && id == r.connID) || (sp.api == apiHostConnect && ci.overlaps(r.inv, r.ret))) {
+					candidates = append(candidates, ci)
 				}
 			}
-			if !real && !r.relayed && !r.limited {
+			allPhantom := len(candidates) > 0
+			for _, ci := range candidates {
+				if !w.phantom(v, ci) {
+					allPhantom = false
+				}
+			}
+			if allPhantom {
 				o.Violate("C12/force-direct-success-with-dead-conn/"+api, "%s with force-direct succeeded during [%d,%d] (conn %s) but the only direct connection involved had been refused by the node's own gater: no direct connection existed", api, r.inv, r.ret, r.connID)
+			}
+			if sp.api == apiSwarmDialPeer && len(candidates) == 1 && candidates[0].disc != 0 && candidates[0].disc < r.inv {
+				ci := candidates[0]
+				o.Violate("C12/force-direct-returned-stale-closed-conn/"+api, "DialPeer with force-direct, invoked at stamp %d (t=%v), returned connection %s whose Disconnected notification had been delivered at stamp %d (t=%v), before the call began: the swarm no longer lists it, no direct connection to the peer exists", r.inv, r.invAt, ci.id, ci.disc, ci.discAt)
 			}
 		}
 		// (3) timing: every call returns by its own deadline; a pure wait (no-dial) for a direct
